@@ -328,6 +328,10 @@ def fold_consts(F, body):
                             v = a - bb_
                         elif base == "Mul":
                             v = a * bb_
+                        elif base == "Div" and bb_ != 0:
+                            v = a // bb_
+                        elif base == "Rem" and bb_ != 0:
+                            v = a % bb_
                         if v is not None and "WithOverflow" in op:
                             key = ("pair", d)
                 if v is not None and env.get(key) != v:
